@@ -53,7 +53,7 @@ def run(ctx):
 
     ctx.bound("grids", "trial grid T1/T2 (T4/T5 thorough) x test grid T1/T2; disjoint by construction (different Grid objects)")
     ctx.bound("quadrature orders", "regular 1..2 (3 thorough)")
-    ctx.out("the electric-field statement (agrees only up to quadrature error); Maxwell magnetic-field operator (quick tier)")
+    ctx.out("the electric-field statement (agrees only up to quadrature error)")
     ctx.stub("Green's function = uninterpreted function of (x, y, n_y) (the potential path passes a dummy test normal)")
     for ci, (case, mtrial, mtest, strial, stest, order) in enumerate(configs(ctx.thorough)):
         t0 = time.time()
@@ -99,11 +99,102 @@ def run(ctx):
         if ctx.thorough or ci in (1, 3):
             ctx.concrete("tested_potential/%d" % ci, "tested_potential", params)
         ctx.log("cfg%d %s %s<-%s: %d entries %.1fs" % (ci, case, mtest, mtrial, n, time.time() - t0))
+    run_maxwell(ctx, b, tg)
+
+
+def run_maxwell(ctx, b, tg):
+    """Maxwell magnetic-field boundary matrix between disjoint grids == tested magnetic potential (trace H x n),
+    with a SYMBOLIC complex wavenumber and an uninterpreted Helmholtz kernel."""
+    from .c13 import local_basis, peval
+    from ..sym import Explorer
+
+    kr, ki = z3.Real("kr"), z3.Real("ki")
+    K = SC(SR(kr), SR(ki))
+    cfgs = [("T1", "T1", 1)] + ([("T2", "T2", 1), ("T2", "T1", 2)] if ctx.thorough else [])
+    # vector lemma used to state the tested trace with the RWG functions underlying the SNC test functions:
+    # for a unit normal n and a tangential f:  (n x f) . (H x n) == - f . H     (Binet-Cauchy)
+    f_, h_, n_ = [[z3.Real("%s%d" % (nm, d)) for d in range(3)] for nm in ("lf", "lh", "ln")]
+    cr = lambda a, c: [a[1] * c[2] - a[2] * c[1], a[2] * c[0] - a[0] * c[2], a[0] * c[1] - a[1] * c[0]]
+    dt = lambda a, c: a[0] * c[0] + a[1] * c[1] + a[2] * c[2]
+    ctx.prove("mfie/lemma-trace", dt(cr(n_, f_), cr(h_, n_)) == -dt(f_, h_), [dt(n_, n_) == 1, dt(n_, f_) == 0], family="tested_mfield", params={"case": "lemma"}, abs_cons=False, group="mfie-lemma")
+    for ci, (mtrial, mtest, order) in enumerate(cfgs):
+        t0 = time.time()
+        ABS.reset()
+        gA = W.symgrid(mtrial, tag="ma%d" % ci)
+        gB = W.symgrid(mtest, tag="mb%d" % ci)
+        W.set_orders(order, 1)
+        uf = W.UFKernel("KM%d" % ci, normals="", complex_=True)
+        with W.patched(*W.install_uf(["helmholtz_single_layer"], uf)):
+            dom = b.function_space(gA, "RWG", 0, include_boundary_dofs=True)
+            tst = b.function_space(gB, "SNC", 0, include_boundary_dofs=True)
+            rng_ = b.function_space(gB, "RWG", 0, include_boundary_dofs=True)
+            Bm = b.operators.boundary.maxwell.magnetic_field(dom, rng_, tst, K).weak_form().to_dense()
+            pts = gB.map_to_point_cloud(order)
+            pot = b.operators.potential.maxwell.magnetic_field(dom, pts.T, K)
+            qp, qw = tg.rule(order)
+            nq = len(qw)
+            spec = np.empty(Bm.shape, dtype=object)
+            spec.fill(SC(ZERO, ZERO))
+            gdB = gB.data()
+            for j in range(dom.global_dof_count):
+                c = np.zeros(dom.global_dof_count)
+                c[j] = 1
+                H = pot.evaluate(b.GridFunction(dom, coefficients=lift_arr(c)))  # (3, nelem*nq)
+                assert np.array_equal(rng_.local2global, tst.local2global) and np.array_equal(rng_.local_multipliers, tst.local_multipliers)
+                for el in np.flatnonzero(tst.support):
+                    lb = local_basis(rng_, el)  # RWG functions f_i with snc_i = n x f_i
+                    for i in range(3):
+                        gi = int(tst.local2global[el, i])
+                        acc = SC(ZERO, ZERO)
+                        for q in range(nq):
+                            dotp = SC(ZERO, ZERO)
+                            for d in range(3):
+                                dotp = dotp + H[d, el * nq + q] * peval(lb[i][d], qp[0, q], qp[1, q])
+                            acc = acc - dotp * qw[q] * gdB.integration_elements[el]  # snc_i . (H x n) == - f_i . H
+                        spec[gi, j] = spec[gi, j] + acc
+        params = {"case": "maxwell_m", "trial_mesh": mtrial, "test_mesh": mtest, "order": order}
+        n = 0
+        for idx, f in W.entries_eq(Bm, spec):
+            ctx.prove("mfie%d/%d_%d" % (ci, idx[0], idx[1]), f, [], family="tested_mfield", params=params, abs_cons="cone", group="mfie%d" % ci)
+            n += 1
+        ctx.concrete("tested_mfield/%d" % ci, "tested_mfield", params)
+        ctx.log("mfie%d %s<-%s: %d entries %.1fs" % (ci, mtest, mtrial, n, time.time() - t0))
 
 
 def concrete(family, params):
     import bempp_cl.api as b
     import bempp_cl.api.integration.triangle_gauss as tg
+
+    if family == "tested_mfield":
+        va, ea, da = W.mesh(params["trial_mesh"])
+        vb, eb, db = W.mesh(params["test_mesh"])
+        vb = np.asarray(vb, dtype=float) * 0.8 + np.array([[3.0], [0.3], [1.0]])
+        gA = b.Grid(np.asarray(va, dtype=float), np.asarray(ea))
+        gB = b.Grid(vb, np.asarray(eb))
+        order = params["order"]
+        b.GLOBAL_PARAMETERS.quadrature.regular = order
+        dom = b.function_space(gA, "RWG", 0, include_boundary_dofs=True)
+        tst = b.function_space(gB, "SNC", 0, include_boundary_dofs=True)
+        rng_ = b.function_space(gB, "RWG", 0, include_boundary_dofs=True)
+        qp, qw = tg.rule(order)
+        nq = len(qw)
+        pts = gB.map_to_point_cloud(order)
+        worst = 0.0
+        for k in (1.5, 1.5 + 0.7j, 0.9 - 0.4j):
+            Bm = b.operators.boundary.maxwell.magnetic_field(dom, rng_, tst, k).weak_form().to_dense()
+            pot = b.operators.potential.maxwell.magnetic_field(dom, pts.T, k)
+            spec = np.zeros(Bm.shape, dtype=complex)
+            for j in range(dom.global_dof_count):
+                c = np.zeros(dom.global_dof_count, dtype=complex)
+                c[j] = 1
+                H = pot.evaluate(b.GridFunction(dom, coefficients=c))
+                for el in range(gB.number_of_elements):
+                    tv = tst.evaluate(el, qp)
+                    tr = np.cross(H[:, el * nq : (el + 1) * nq].T, gB.normals[el]).T
+                    for i in range(3):
+                        spec[tst.local2global[el, i], j] += np.sum(qw * gB.integration_elements[el] * np.sum(tv[:, i, :] * tr, axis=0))
+            worst = max(worst, float(np.max(np.abs(Bm - spec)) / np.max(np.abs(spec))))
+        return {"gap": worst if worst > 1e-10 else 0.0, "max_rel_diff": worst, "key": "tested_mfield"}
 
     mod, fn, kname, cplx, k = CASES[params["case"]]
     va, ea, da = W.mesh(params["trial_mesh"])
